@@ -109,7 +109,7 @@ def failing_theorems(module, errors):
 def print_axioms(module, names):
     """#print axioms for each theorem; returns {name: [axioms]}"""
     if not names:
-        return {}
+        return {"axioms": {}, "missing": [], "rc": 0, "log": ""}
     os.makedirs(os.path.join(LEAN, ".audit"), exist_ok=True)
     path = os.path.join(LEAN, ".audit", module.replace(".", "_") + ".lean")
     with open(path, "w") as f:
